@@ -127,6 +127,39 @@ def run(ctx):
         nerr += 1
     ctx.floor('R13.3', nerr, 3, 'error exits of handle_submit')
 
+    # ---- R13.6
+    ctx.rule('R13.6', 'validate_submit refuses duplicate ids (against the job and within the submit), self/unknown dependencies; handle_submit refuses closed and unknown jobs')
+    vb_ = prog.body(SUBMIT + 'validate_submit')
+    SR_ = 'hyperqueue::transfer::messages::SubmitResponse'
+    cons = {}
+    for owner, b, bi, s_ in construct_sites(prog, SR_):
+        if b.path == vb_.path:
+            cons.setdefault(s_['rv'][1][2], []).append(bi)
+    JTD = 'hyperqueue::transfer::messages::JobTaskDescription'
+    ck = vb_.call_blocks(lambda c: c.endswith('HashMap::contains_key'))
+    e_ck, _ = guard_edges(vb_, lambda c: True, True) if False else (set(), [])
+    for v, floor_, why in (('TaskIdAlreadyExists', 2, 'an id already used in the job (array and graph submits)'), ('NonUniqueTaskId', 1, 'an id listed twice in one graph submit'), ('InvalidDependencies', 1, 'a dependency on itself or on an unknown task')):
+        ctx.ob('R13.6', f'validate_submit|{v}', len(cons.get(v, [])) >= floor_, f'validate_submit can refuse {why} ({len(cons.get(v, []))} site(s), expected >= {floor_})', vb_.loc(cons[v][0]) if cons.get(v) else vb_.loc())
+    arms = {}
+    for bi in cons.get('TaskIdAlreadyExists', []):
+        for x in (variants_at(vb_, JTD, bi) or []):
+            arms.setdefault(x, 0)
+            arms[x] += 1
+    ctx.ob('R13.6', 'validate_submit|duplicate check for both kinds', set(arms) == {'Array', 'Graph'}, f'TaskIdAlreadyExists is produced for Array and for Graph descriptions (observed {arms})', vb_.loc())
+    from hqrules.templates import dominated_by_edges as _dbe
+    HM_CK = {'hashbrown::map::HashMap::contains_key', 'std::collections::hash::map::HashMap::contains_key'}
+    e_t, _c = guard_edges(vb_, HM_CK, True)
+    ctx.ob('R13.6', 'validate_submit|exists -> refuse', bool(e_t) and all(_dbe(vb_, bi, e_t) for bi in cons.get('TaskIdAlreadyExists', [])), 'TaskIdAlreadyExists is returned on the contains_key()==true edge', vb_.loc())
+    SETI_ = {'hashbrown::set::HashSet::insert', 'std::collections::hash::set::HashSet::insert'}
+    e_f, _c = guard_edges(vb_, SETI_, False)
+    ctx.ob('R13.6', 'validate_submit|second occurrence -> refuse', bool(e_f) and all(_dbe(vb_, bi, e_f) for bi in cons.get('NonUniqueTaskId', [])), 'NonUniqueTaskId is returned when Set::insert reports the id was already present', vb_.loc())
+    selfdep = [bi for bi, t, c in vb_.calls() if bi in vb_.reachable() and (callee_decl(t) or '').endswith('PartialEq::eq') and any('JobTaskId' in vb_.locals[op_local(a)][0] for a in t['args'] if op_local(a) is not None)]
+    ctx.ob('R13.6', 'validate_submit|self dependency', bool(selfdep), 'a task depending on itself is refused (dep_id == task.id)', vb_.loc(selfdep[0]) if selfdep else vb_.loc())
+    hsb = prog.body(SUBMIT + 'handle_submit')
+    hcons = {s_['rv'][1][2]: bi for owner, b, bi, s_ in construct_sites(prog, SR_) if b.path == hsb.path}
+    e_open, _c = guard_edges(hsb, JOB + 'is_open', False)
+    ctx.ob('R13.6', 'handle_submit|JobNotOpened', 'JobNotOpened' in hcons and bool(e_open) and _dbe(hsb, hcons['JobNotOpened'], e_open, False), 'a submit into a closed job is refused (is_open()==false edge)', hsb.loc(hcons.get('JobNotOpened')) if 'JobNotOpened' in hcons else hsb.loc())
+    ctx.ob('R13.6', 'handle_submit|JobNotFound', 'JobNotFound' in hcons, 'a submit into an unknown job is refused', hsb.loc(hcons.get('JobNotFound')) if 'JobNotFound' in hcons else hsb.loc())
     # ---- R13.4
     sites = [(o, b, bi) for o, b, bi in call_sites(prog, INTARRAY + 'from_range') if o.startswith(HQ) and not is_test_util(o)]
     ctx.floor('R13.4', len(sites), 2, 'from_range call sites in hyperqueue::server')
